@@ -2107,6 +2107,32 @@ def r41_multi_index(facts):
             c.unk(inst, where, "the index computation is outside the list evaluator (rank %d: %s)" % (unk[0], unk[2]))
         else:
             c.ok(inst, where, "row-major position for all %d (rank, unit-dimension pattern) cases of ranks 1..4" % n_ok)
+    # ---- a position outside the buffer is refused: the element is read with a panicking index, not with a defaulting accessor
+    all_impls = [b for b in facts.fns() if b.get("impl_trait_def") in ("core::ops::index::Index", "core::ops::index::IndexMut") and b.get("impl_self") == ARRAY]
+    for b in all_impls:
+        where = "%s:%d" % (F.rel(b["file"]), b["sp"][0])
+        inst = "refuses:%s<%s>" % (b["impl_trait_def"].rsplit("::", 1)[-1], (b.get("inputs") or ["", "?"])[-1].replace("alloc::vec::", ""))
+        soft = None
+        hard = 0
+        for nb in facts.nested(b):
+            for x in walk(facts.root(nb)):
+                if x.get("k") == "Index" or (x.get("k") == "Call" and callee(x) in ("core::ops::index::Index::index", "core::ops::index::IndexMut::index_mut")):
+                    hard += 1
+                if x.get("k") == "Call" and (callee(x) or "").rsplit("::", 1)[-1] in ("unwrap_or", "unwrap_or_else", "unwrap_or_default", "map_or", "map_or_else", "get_unchecked", "get_unchecked_mut") \
+                        and x.get("args"):
+                    recv = x["args"][0]
+                    viaget = callee(x).endswith(("get_unchecked", "get_unchecked_mut")) or any(
+                        y.get("k") == "Call" and (callee(y) or "").rsplit("::", 1)[-1] in ("get", "get_mut", "first", "last", "nth") for y in walk(recv))
+                    reads_values = any(y.get("k") == "Field" and y.get("adt") == ARRAY and y.get("name") == "values" for y in walk(recv)) or \
+                        any(y.get("k") == "Call" and resolved(y) == "corgi::array::Array::values" for y in walk(recv))
+                    if viaget and reads_values:
+                        soft = x
+        if soft is not None:
+            c.bad(inst, F.loc(b, soft), "the element is read with `%s`: a position outside the value buffer yields a made-up element instead of being refused" % show(soft)[:70])
+        elif hard:
+            c.ok(inst, where, "the element is read with a panicking index (%d index expression(s)); no defaulting accessor on the value buffer" % hard, nontrivial=False)
+        else:
+            c.unk(inst, where, "no index expression found in this implementation (element read in a form this clause does not read)")
     return c
 
 
